@@ -679,12 +679,16 @@ func runScript(r *common.Run, sc *script) {
 	r.Count("predicted_accepted_chunks", int64(pr.accepted))
 	r.Count("predicted_ignored_chunks", int64(pr.ignored))
 
-	fs := vfs.NewMem()
+	// strict: what was not synced is lost in the power loss at the end of the script
+	fs := vfs.NewStrictMem()
 	nodes := map[nodeID]bool{}
 	for _, sd := range sc.Streams {
 		nodes[sd.node()] = true
 		_ = fs.MkdirAll(rootDir(sd.Shard, sd.Replica), 0o755)
 	}
+	// the replicas' snapshot directories exist durably before anything is received (a NodeHost
+	// creates and syncs them when the replica is started)
+	syncTree(fs, "/")
 	lg := &recvLog{}
 	onReceive := func(mb pb.MessageBatch) {
 		lg.mu.Lock()
@@ -722,6 +726,11 @@ func runScript(r *common.Run, sc *script) {
 		return w
 	}
 	viol := func(key, detail string) {
+		if (r.Prop == "C16" || r.Prop == "C08") && !strings.HasPrefix(key, "received-snapshot-not-durable") {
+			// registered for C16 only for its "received" clause (the power loss at the end)
+			r.Count("alarms_of_other_properties_C15", 1)
+			return
+		}
 		if r.Prop == "C14" && !strings.HasPrefix(key, "finalized-with-corrupt-chunk") {
 			// registered for C14 only for its clause "a received chunk stream that is corrupted or
 			// cut short anywhere is rejected": everything else this mode sees belongs to C15
@@ -865,6 +874,13 @@ func runScript(r *common.Run, sc *script) {
 	}
 	r.Count("scripts_no_temp_dir_left", 1)
 
+	type handed struct {
+		k    keyID
+		dir  string
+		main string
+		want map[string][]byte
+	}
+	var handedOver []handed
 	// (c) per key: finalized iff predicted, content, notification
 	lg.mu.Lock()
 	msgs := append([]pb.MessageBatch(nil), lg.msgs...)
@@ -1062,6 +1078,7 @@ func runScript(r *common.Run, sc *script) {
 			if contentOK {
 				r.Count("finalized_dirs_byte_identical", 1)
 				r.Count("finalized_files_compared", int64(len(want)))
+				handedOver = append(handedOver, handed{k, finalDir, mainName, want})
 			}
 			// the notification
 			m := got[0]
@@ -1101,6 +1118,42 @@ func runScript(r *common.Run, sc *script) {
 				r.Count("notifications_checked", 1)
 			}
 		}()
+	}
+	// power loss after the script. A snapshot that was finalized and announced to the node
+	// (InstallSnapshot notification: the node records it in its log store and acknowledges it) must
+	// by then be durable as a whole: directory, flag file, every file byte for byte.
+	if len(handedOver) > 0 {
+		fs.SetIgnoreSyncs(true)
+		fs.ResetToSyncedState()
+		fs.SetIgnoreSyncs(false)
+		repairNames(fs, "/")
+		for _, h := range handedOver {
+			r.Count("handed_over_snapshots_checked_after_power_loss", 1)
+			names, err := fs.List(h.dir)
+			if err != nil {
+				viol("received-snapshot-not-durable:directory-lost", fmt.Sprintf("key %d:%d:%d: %s was finalized and announced to the node; after a power loss the directory is gone (%v)", h.k.shard, h.k.replica, h.k.index, h.dir, err))
+				continue
+			}
+			seen := map[string]bool{}
+			for _, n := range names {
+				seen[n] = true
+			}
+			if !seen[fileutil.SnapshotFlagFilename] {
+				viol("received-snapshot-not-durable:flag-file-lost", fmt.Sprintf("key %d:%d:%d: %s lost its flag file in the power loss: the start-up cleanup can no longer tell that the directory holds a received snapshot that may be unrecorded", h.k.shard, h.k.replica, h.k.index, h.dir))
+			}
+			for n, w := range h.want {
+				g, err := readAllFS(fs, path.Join(h.dir, n))
+				if err != nil || !bytes.Equal(g, w) {
+					kind := "main-file"
+					if n != h.main {
+						kind = "external-file"
+					}
+					viol("received-snapshot-not-durable:"+kind, fmt.Sprintf("key %d:%d:%d: %s/%s was complete when the snapshot was announced to the node; after a power loss it has %d of %d bytes, first difference at %d (err=%v)", h.k.shard, h.k.replica, h.k.index, h.dir, n, len(g), len(w), firstDiff(g, w), err))
+				} else {
+					r.Count("handed_over_files_identical_after_power_loss", 1)
+				}
+			}
+		}
 	}
 	// notifications for keys no stream of the script has
 	for _, mb := range msgs {
@@ -1184,4 +1237,43 @@ func firstLine(v interface{}) string {
 		s = s[:300]
 	}
 	return s
+}
+
+// repairNames: see cluster.repairNames (MemFS keeps file names in the node; after
+// ResetToSyncedState an entry renamed without a directory sync carries the new name).
+func repairNames(fs *vfs.MemFS, dir string) {
+	names, err := fs.List(dir)
+	if err != nil {
+		return
+	}
+	for _, n := range names {
+		p := fs.PathJoin(dir, n)
+		st, err := fs.Stat(p)
+		if err != nil {
+			continue
+		}
+		if st.Name() != n {
+			_ = fs.Rename(p, p)
+		}
+		if st.IsDir() {
+			repairNames(fs, p)
+		}
+	}
+}
+
+func syncTree(fs *vfs.MemFS, dir string) {
+	names, err := fs.List(dir)
+	if err != nil {
+		return
+	}
+	for _, n := range names {
+		p := fs.PathJoin(dir, n)
+		if st, err := fs.Stat(p); err == nil && st.IsDir() {
+			syncTree(fs, p)
+		}
+	}
+	if d, err := fs.OpenDir(dir); err == nil {
+		_ = d.Sync()
+		_ = d.Close()
+	}
 }
